@@ -22,7 +22,7 @@ RULE = (
     "other dtypes) x array types "
     "{class, subclass, Any, Union, nested annotation (1-3 levels, categories drawn so that the effective "
     "dtypes differ from the written category)} x dim strings (named, fixed, '_', '...', '*v', '#', 'x=3', "
-    "symbolic, whitespace, empty); routes pickle (protocols 2 and 5), cloudpickle, copy.copy, copy.deepcopy "
+    "symbolic, whitespace, empty); routes pickle (protocols 2 and 5), cloudpickle, copy.copy, copy.deepcopy, copies of copies (pickle twice, cloudpickle then pickle) "
     "in the same process and pickle / cloudpickle loaded in a fresh interpreter; compared: the acceptance "
     "vector over 281 probe values of the original before and after serialising and of every reconstruction, "
     "and what was rebuilt against the model's reduce/rebuild; non-trivial = nested, Union, or a dim string "
@@ -112,6 +112,10 @@ ROUTES = {
     "deepcopy": copy.deepcopy,
     "deepcopy-in-container": lambda x: copy.deepcopy({"k": [x]})["k"][0],
     "cloudpickle": lambda x: cloudpickle.loads(cloudpickle.dumps(x)),
+    # a copy of a copy (a checkpoint re-saved, an object sent on by the worker that received it)
+    "pickle-twice": lambda x: pickle.loads(pickle.dumps(pickle.loads(pickle.dumps(x)))),
+    "cloudpickle-then-pickle": lambda x: pickle.loads(pickle.dumps(cloudpickle.loads(cloudpickle.dumps(x)))),
+    "pickle-then-deepcopy-then-pickle": lambda x: pickle.loads(pickle.dumps(copy.deepcopy(pickle.loads(pickle.dumps(x))))),
 }
 
 
